@@ -52,4 +52,3 @@ kani_unit("air_proof", "winter-air", "air/src/proof/mod.rs", "kani/air_proof.rs"
     H("air_proof_canary_must_fail", ["C18"], [], "false claim: level >= 100 for all options", canary=True),
 ])
 
-PROPS["C18"] = dict(level="other", claimed=True, level_text="tbd", level_note="tbd", explanation="tbd")
